@@ -556,7 +556,7 @@ type job struct {
 
 func jobsFor(tier string) []job {
 	var js []job
-	all := append(append(append(scen.Pairs(), scen.Triples()...), scen.QueryTriples()...), scen.Bulk()...)
+	all := append(append(append(scen.Pairs(), scen.Triples()...), scen.QueryTriples()...), append(scen.Bulk(), scen.Tiny()...)...)
 	for _, sc := range all {
 		if tier == "thorough" {
 			// thorough: bound 2 everywhere, within 8 minutes per scenario (a budget that is hit is
@@ -803,7 +803,7 @@ func replay(path string) int {
 	c := doc.Violation.Case
 	name, _ := c["scenario"].(string)
 	var sc *scen.Scenario
-	for _, s := range append(append(append(scen.Pairs(), scen.Triples()...), scen.QueryTriples()...), scen.Bulk()...) {
+	for _, s := range append(append(append(scen.Pairs(), scen.Triples()...), scen.QueryTriples()...), append(scen.Bulk(), scen.Tiny()...)...) {
 		if s.Name == name {
 			s := s
 			sc = &s
